@@ -2038,9 +2038,10 @@ class Interp:
             return b
         if not b_ok:
             return a
-        if self.mode != "FPSTD" and (is_z3(a) or isinstance(a, (int, float))) and (is_z3(b) or isinstance(b, (int, float))):
+        nonfinite = lambda x: isinstance(x, float) and (x != x or x in (float("inf"), float("-inf")))
+        if self.mode != "FPSTD" and (is_z3(a) or isinstance(a, (int, float))) and (is_z3(b) or isinstance(b, (int, float))) and not nonfinite(a) and not nonfinite(b):
             return ite(c, a, b)
-        if self.branch(c):  # (FPSTD obligations are decided per path: integer rounding terms do not mix well with if-then-else)
+        if self.branch(c):  # (an infinite / NaN branch value is not a real-number term: decide the condition on this path)  # (FPSTD obligations are decided per path: integer rounding terms do not mix well with if-then-else)
             return a
         return b
 
